@@ -13,7 +13,7 @@
    tests the binding NAME against "onStartup" before it looks at the type, so a schedule /
    kubernetes / ... binding that the user named "onStartup" is dispatched to __on_startup
    instead of its documented handlers (C19_reserved_name_refuted).  Everything is proved
-   for inputs outside that trigger T. *)
+   for inputs outside that trigger T (recorded finding F20 in known_findings.json). *)
 From Coq Require Import String.
 From Verif Require Import Common C19_Model C19_Spec C19_Proofs.
 
